@@ -7,7 +7,6 @@ package main
 
 import (
 	"fmt"
-	"net"
 	"net/http"
 	"os"
 	"os/exec"
@@ -181,7 +180,7 @@ func TestVerifToFileMainBin(t *testing.T) {
 		root := t.TempDir()
 		src := vfNewStubNsqd()
 		var hits int32
-		ln, err := net.Listen("tcp", "127.0.0.1:0")
+		ln, err := vfListen()
 		if err != nil {
 			t.Fatal(err)
 		}
